@@ -134,6 +134,8 @@ class Evaluator:
                 return None
             if _is_num(x) and isinstance(x, int) and not _int_ok(-x):
                 return UNSPEC
+            if isinstance(x, AmbigNum):
+                return AmbigNum(-x)         # the sign does not settle the type question
             return -x if _is_num(x) else UNSPEC
         if k == "cmp":
             return self.cmp(t, row)
